@@ -30,7 +30,29 @@ const (
 	CBAfter
 	CBCmp
 	CBAll = CBAlloc | CBRef | CBVal | CBBefore | CBAfter | CBCmp
+	// CBValDouble is NOT neutral in length: a self-consistent codec whose on-disk value is twice as
+	// long as Item.Val (every byte written twice).  All byte totals are then defined through
+	// ItemValLength, which is what the aggregates must use on every path (C13).
+	CBValDouble CBMask = 1 << 8
 )
+
+// ValBytes is the number of bytes a value accounts for under the configured callbacks.
+func (e *Env) ValBytes(v []byte) int {
+	if e.Cfg.CB&CBValDouble != 0 {
+		return 2 * len(v)
+	}
+	return len(v)
+}
+
+// Totals returns the expected (items, bytes) of a model collection under the configured callbacks.
+func (e *Env) Totals(m *model.Coll) (uint64, uint64) {
+	var n, b uint64
+	for k, it := range m.Items {
+		n++
+		b += uint64(len(k) + e.ValBytes(it.Val))
+	}
+	return n, b
+}
 
 // Config selects monitors and modes.
 type Config struct {
@@ -295,6 +317,34 @@ func (e *Env) callbacks() gkvlite.StoreCallbacks {
 			return nil
 		}
 	}
+	if m&CBValDouble != 0 {
+		cb.ItemValLength = func(c *gkvlite.Collection, i *gkvlite.Item) int {
+			atomic.AddInt64(&e.cbN[3], 1)
+			return 2 * len(i.Val)
+		}
+		cb.ItemValWrite = func(c *gkvlite.Collection, i *gkvlite.Item, w io.WriterAt, offset int64) error {
+			atomic.AddInt64(&e.cbN[4], 1)
+			d := make([]byte, 2*len(i.Val))
+			for k, x := range i.Val {
+				d[2*k], d[2*k+1] = x, x
+			}
+			_, err := w.WriteAt(d, offset)
+			return err
+		}
+		cb.ItemValRead = func(c *gkvlite.Collection, i *gkvlite.Item, r io.ReaderAt, offset int64, valLength uint32) error {
+			atomic.AddInt64(&e.cbN[5], 1)
+			d := make([]byte, valLength)
+			if _, err := r.ReadAt(d, offset); err != nil {
+				return err
+			}
+			v := make([]byte, valLength/2)
+			for k := range v {
+				v[k] = d[2*k]
+			}
+			i.Val = v
+			return nil
+		}
+	}
 	if m&CBBefore != 0 {
 		cb.BeforeItemWrite = func(c *gkvlite.Collection, i *gkvlite.Item) (*gkvlite.Item, error) {
 			atomic.AddInt64(&e.cbN[6], 1)
@@ -469,7 +519,7 @@ func (e *Env) CheckColl(label string, st *gkvlite.Store, c *gkvlite.Collection, 
 		if mode&RTotals != 0 {
 			e.tag(tagPrefix + "Totals")
 			n, b, err := c.GetTotals()
-			wn, wb := m.Totals()
+			wn, wb := e.Totals(m)
 			if err != nil {
 				e.Failf("readback/totals-error/"+label, "GetTotals: %v", err)
 				return
@@ -760,6 +810,18 @@ func (e *Env) DecodeCheck(label string) {
 	if err != nil {
 		e.Failf("decode/structural/"+label, "independent decoder rejects the file: %v", err)
 		return
+	}
+	if e.Cfg.CB&CBValDouble != 0 {
+		for _, c := range img.Colls { // the on-disk form of a value is the doubled one
+			for i := range c.Items {
+				v := c.Items[i].Val
+				h := make([]byte, len(v)/2)
+				for k := range h {
+					h[k] = v[2*k]
+				}
+				c.Items[i].Val = h
+			}
+		}
 	}
 	if d := CompareImage(img, dur); d != "" {
 		e.Failf("decode/state-mismatch/"+label, "independent decoder: %s", d)
